@@ -55,7 +55,10 @@ CLAIMED = {
               "(rfc4/rfc5): success iff well-formed grant, refusal -> SOCKSFailure, malformed/truncated -> SOCKSProtocolError, "
               "and on success exactly the reply bytes (8, or 2[+2]+4+addr+2 for every address length 0..255) were consumed. "
               "All byte values by case analysis, not enumeration. Correspondence: real _handshake over a fake socket, every "
-              "value of every decision byte, EOF at every offset, all address lengths, three segmentations."),
+              "value of every decision byte, EOF at every offset, all address lengths, three segmentations. "
+              "The state methods SOCKS4._first_response, SOCKS5._first_response / _auth_response / _connect_response / _connect_response_rest are "
+              "TRANSLATED from the Python source on every run; an interpreter runs one call on the bytes _read delivered and theorems show that each "
+              "method reads exactly need(st) bytes and ends exactly as decide(c, st, d) - the functions the handshake theorems are stated over (C17_*_from_source)."),
         note=TB + "sock_recv is assumed to return between 1 and count bytes or b'' at EOF.",
         technique="Coq proof (refinement of the socket loop to exact reads, symbolic case analysis of the reply state machine) + vm_compute correspondence",
         ref='6/C17'),
